@@ -60,9 +60,23 @@ func init() {
 			"real FileDescriptorProtos of registered files; large messages (about 1 value in 3 cases: 100 KiB..2 MiB, rarely 8-12 MiB, as one bytes field, many list elements, many map entries, a 150-deep chain, one large unknown field, many unknown fields; `values_large_100KiB_to_12MiB`; plain and held round trip only). " +
 			"Every generated value is first round-tripped through the protobuf library alone (a value that is not a fixed point there is a harness error). Protobuf values are compared with proto.Equal AND by byte equality of their deterministic encodings. " +
 			"cqrs/gogo-schema does the same with the deprecated gogo ProtobufMarshaler: odd values are of gogo-generated types (gogo/protobuf/types: Value in every arm and unset - sweep over the 7 slots -, Struct/ListValue trees, wrappers, Timestamp, Duration, Any, FieldMask, Empty) with unknown fields (XXX_unrecognized) at the top level and/or nested, NaN/Inf/-0, nil vs empty maps/lists/bytes; " +
-			"even values are google.golang.org/protobuf messages of the schema family above (counters `gogo_std_*`; see Assumptions for the known defect that is counted instead of judged). A schema case is non-trivial when, in addition to the codec rule below, its batch had values with unknown fields at the top level and nested, a oneof arm set and a oneof unset and a presence field set to zero. " +
+			"every 8th value is of a gogo-only type (below), even values are google.golang.org/protobuf messages of the schema family above (counters `gogo_std_*`; see Assumptions for the known defect that is counted instead of judged). A schema case is non-trivial when, in addition to the codec rule below, its batch had values with unknown fields at the top level and nested, a oneof arm set and a oneof unset and a presence field set to zero. " +
+			"GOGO-ONLY MESSAGE TYPES (both gogo classes; 2 of 14 random values, 1 of 5 corpus-sweep carriers, 1 of 3 ladder values, every 8th value of the schema class; counter `gogo_only_type_values`): hand-written types in the style of the golang/protobuf <= 1.3 / gogo generators that implement gogo's proto.Message " +
+			"(Reset/String/ProtoMessage) but not google.golang.org/protobuf's (no ProtoReflect), so the marshaler's std-proto fallback cannot handle them: OldGenEvent (proto3 struct tags: scalars, bytes, packed/unpacked lists, string map, nested message with presence, list of messages, unknown fields at the top level and nested), " +
+			"OldGenCommand (proto2 struct tags: pointers = presence, one required field) and OldGenRaw (encodes itself with hand-written Marshal/Unmarshal, strict decoder). " +
+			"ROUND TRIPS ARE INDEPENDENT OF WHAT THE MARSHALER SAW BEFORE (all five cqrs classes, history.go). For 3 of 4 values of a batch the program is: (1) a baseline round trip of the value (judged under the ordinary clauses; its message is held to the end too), " +
+			"(2) 1-3 OTHER OPERATIONS aimed at the value's Go type, of which nothing is demanded (error / success / panic are only counted, `other_ops_*`, `other_op:<kind>`), each made through the same marshaler value (2 of 5), the one marshaler value that is kept for the whole case (1 of 5; 1 of 5 checked round trips go through it as well) " +
+			"or another marshaler value (2 of 5: other NewUUID/GenerateName, defaults; for the gogo marshaler also a copy with DisableStdProtoFallback and its ToProtoMarshaler()): " +
+			"Unmarshal of a bad payload into a fresh target of the type (declared length beyond the end, truncated varint/tag/fixed64, field number 0, end-group without start, unterminated group, over-long varint, a declared field number with another wire type, invalid UTF-8 in field 1, random bytes, " +
+			"JSON object / truncated / wrong types / null / truncated array / two documents, empty and nil payload, a text, the encoding of the previous value of the batch (foreign type), the value's own payload truncated / with garbage appended / with one bit changed); " +
+			"Unmarshal of a copy of the value's own payload or a bad payload into a target that is refused or cannot be filled (nil, non-pointer, typed nil pointer, a target of another type or codec family: JSON struct, gogo type, gogo-only types, std message, proto2 message with a required field, *chan); " +
+			"Marshal of a value that is refused (a value of the SAME Go type that does not encode - std proto: invalid UTF-8 in a string field or required field unset; gogo-only: invalid UTF-8, required unset; JSON: NaN/Inf/chan/func inside the value -, typed nil pointer, non-pointer, chan, func, NaN, struct with a chan, a JSON struct for the Protobuf marshalers, a gogo-only message for ProtoMarshaler); " +
+			"(3) the ordinary checked program (Marshal, name, Unmarshal into fresh / reused / pre-populated targets, held message), in 3 of 8 with further other operations between Marshal and the first Unmarshal (`values_with_other_ops_between_marshal_and_unmarshal`). " +
+			"A check of step 3 that step 1 made too (Marshal, name, Unmarshal into a fresh target, identity) and that fails although step 1 held for the same marshaler value and value is reported as clause `cqrs-roundtrip-after-failed-op` (an operation of step 2 failed) resp. `cqrs-roundtrip-not-repeatable` (none failed); non-fresh targets keep their own clauses. " +
+			"Cases of one child process run one after another, so process-level state poisoned in an earlier case fails step 1 already: that is reported under the ordinary clause together with the number of failed other operations the harness made on that Go type in the process and in the case. " +
+			"Counters: `values_with_other_ops_around_their_round_trip`, `baseline_round_trips_before_other_ops`, `values_checked_after_failed_op_on_their_go_type`, `gogo_only_type_values_checked_after_failed_op_on_their_go_type`, `go_types_with_failed_ops`. " +
 			"A case is non-trivial when its batch contained non-empty metadata / multi-byte or control strings / non-empty binary payloads (per class) and at least one expected-true and " +
-			"one expected-false comparison (equals) resp. at least one metadata edit (copy) resp. at least one non-zero value (codecs); distinct = hash of (class, generated inputs).",
+			"one expected-false comparison (equals) resp. at least one metadata edit (copy) resp. at least one non-zero value and at least one value checked after a failed other operation on its Go type (codecs); distinct = hash of (class, generated inputs, kinds of other operations).",
 		Assumptions: []string{
 			"strings are valid UTF-8 (the statement's quantifier); invalid UTF-8 is out of scope because encoding/json and proto3 do not preserve it",
 			"payload equality is equality of the byte strings: nil and empty payloads coincide; nil and empty metadata have the same (empty) key/value set",
@@ -83,6 +97,9 @@ func init() {
 				"JSON marshaler: encoding/json, the codec the marshaler is documented to use, does not clear its target (godoc: unmarshaling an object into a map 'reuses the existing map, keeping existing entries'; struct fields absent from the document - here only omitempty fields whose value is empty - are left alone; " +
 				"slice elements and pointees are decoded in place), so for a non-fresh target the identity cannot hold for stale map keys and omitted fields on the unchanged tree. Demanded is the part of the identity every such decoder guarantees ('covers'): every scalar, string, []byte, time, slice length and nil-ness, " +
 				"nil pointer/map/interface, every marshaled map key with its value, and the complete content of untyped (interface{}) slots come back exactly; additional map keys and fields the document omits may keep what the target held",
+			"well-formed round trips do not depend on earlier calls: the statement quantifies over all values without a condition on what the marshaler was handed before, so a round trip that held must still hold after calls that failed (bad payload, refused target, refused value) " +
+				"through the same or any other marshaler value of the process. Nothing is demanded of the failing calls themselves (not even that they fail); they never get the judged value, message or target. " +
+				"gogo-only message types are in the family of the deprecated gogo ProtobufMarshaler only (ProtoMarshaler refuses them by design); their identity is gogo's Equal AND the canonical bit-exact rendering, like the other gogo types",
 			"forwarder: a carrier message's own UUID and metadata are not part of the envelope (wrap puts destination topic, UUID, payload, metadata into the carrier's payload), so they must not influence the forwarded message; messages of one Publish call through GoChannel are compared as a multiset because GoChannel does not order them",
 		},
 		Run: run,
